@@ -6,28 +6,46 @@ import (
 	"os"
 	"runtime/pprof"
 	"strings"
+	"sync/atomic"
 
 	"tkestack.io/galaxy/verifsim/core"
 	"tkestack.io/galaxy/verifsim/dropin/simlog"
 	"tkestack.io/galaxy/verifsim/harness"
 )
 
+// galaxy's own log lines (warnings about refused batches etc.) go into the trace of a traced run. The sink is a
+// process global read by every task, so it is installed once, before any task exists, and never written again (a
+// write per run would race, in the detector's eyes, with the reads of the previous run's tasks); whether the
+// current run is traced is an atomic flag stored by the scheduler goroutine only (tasks only load it, so it adds
+// no ordering between tasks).
+var traceNow atomic.Bool
+
+func init() {
+	simlog.Sink = func(line string) {
+		if traceNow.Load() {
+			core.CallNow(core.Req{Op: "sim.log", A: []string{line}})
+		}
+	}
+}
+
 func run(prop, tier string, c *core.Choices, trace bool) *harness.RunResult {
 	s := core.NewSim(c)
 	s.TraceOn = trace
+	traceNow.Store(trace)
 	s.MaxSteps = 60000
 	w := newWorld(s, prop, tier)
 	s.W = w
-	s.OnPanic = func(t *core.Task, msg string) {
-		// a panic in galaxy code is C18's subject; here it ends the run as trouble so that it is never mistaken
-		// for a pass (the generator avoids the one known panicking policy shape, see cluster.go policySpec)
-		s.Infra = fmt.Sprintf("task %s panicked: %s", t.Name, firstLines(msg, 12))
+	s.OnPanic = w.onPanic
+	s.OnLockLeak = func(t *core.Task, held int) {
+		s.Stat("lockleak")
+		if w.armed("C18") {
+			w.fail("C18.lock-leak", "lock-leak", "task %s ended while holding %d lock(s)", t.Name, held)
+			return
+		}
+		s.Infra = fmt.Sprintf("task %s ended holding %d simsync lock(s)", t.Name, held)
 		s.Stop()
 	}
-	simlog.Sink = nil
 	if trace {
-		// galaxy's own log lines (warnings about refused batches etc.) go into the trace
-		simlog.Sink = func(line string) { core.CallNow(core.Req{Op: "sim.log", A: []string{line}}) }
 		s.Logf("case: features=%+v", w.F)
 		s.Logf("case: prior kernel state: %s", w.priorDesc)
 		for _, l := range strings.Split(strings.TrimSpace(w.Kern.SaveAll()), "\n") {
@@ -74,9 +92,80 @@ func run(prop, tier string, c *core.Choices, trace bool) *harness.RunResult {
 	if prop == "C16" {
 		res.Nontrivial = w.flowsAllowed > 0 && w.flowsDenied > 0
 	}
+	if prop == "C18" {
+		// at least one hostile operation reached galaxy and the follow-up synchronisation was attempted
+		res.Nontrivial = s.Stats["c18.hostile-ops"] > 0 && (w.followUpDone || s.Viol != nil)
+	}
+	if prop == "C19" {
+		// at least two galaxy tasks were runnable at the same decision
+		res.Nontrivial = s.Contested > 0 && w.handlers+w.syncs > 1
+	}
 	res.Summary = fmt.Sprintf("prior=%s ns=%d pods=%d policies=%d podchains=%d ops=[%s] handlers=%d syncs=%d flows=%d(denied %d)", w.priorDesc,
 		len(w.cl.NS), len(w.cl.Pods), len(w.cl.Pols), len(final.Pods), strings.Join(w.summary, ","), w.handlers, w.syncs, w.flowsJudged, w.flowsDenied)
 	return res
+}
+
+// onPanic: a panic inside galaxy code kills the goroutine it happens in (an informer handler's panic takes the
+// whole daemon down: client-go re-panics after logging). It is a verdict for C18 only; a panic without a galaxy
+// frame is harness trouble.
+func (w *World) onPanic(t *core.Task, msg string) {
+	first := msg
+	if i := strings.Index(first, "\n"); i > 0 {
+		first = first[:i]
+	}
+	inGalaxy := strings.Contains(msg, "tkestack.io/galaxy/pkg/") || strings.Contains(msg, "tkestack.io/galaxy/cni/")
+	if !inGalaxy || strings.Contains(first, "verifsim") {
+		w.S.Infra = fmt.Sprintf("task %s panicked outside galaxy code: %s", t.Name, firstLines(msg, 14))
+		w.S.Stop()
+		return
+	}
+	site := panicSite(msg)
+	w.S.Stat("panic." + site)
+	w.S.Stat("panicline." + panicLine(msg))
+	if w.hostile && !w.HF.OffDirection {
+		w.S.Stat("probe.panic-without-off-direction-rules")
+	}
+	switch {
+	case w.armed("C18"):
+		w.fail("C18.panic", "panic@"+site, "task %s panicked: %s at %s (%s)", t.Name, first, site, panicLine(msg))
+	case w.armed("C19"):
+		// not this property's clause; the run goes on (the task is gone, as the goroutine would be)
+	default:
+		w.S.Infra = fmt.Sprintf("task %s panicked: %s", t.Name, firstLines(msg, 12))
+		w.S.Stop()
+	}
+}
+
+// panicLine returns file:line of the innermost galaxy frame.
+func panicLine(msg string) string {
+	lines := strings.Split(msg, "\n")
+	for i, l := range lines {
+		l = strings.TrimSpace(l)
+		if (strings.HasPrefix(l, "tkestack.io/galaxy/pkg/") || strings.HasPrefix(l, "tkestack.io/galaxy/cni/")) && i+1 < len(lines) {
+			f := strings.Fields(strings.TrimSpace(lines[i+1]))
+			if len(f) > 0 {
+				if j := strings.Index(f[0], "/pkg/"); j >= 0 {
+					return f[0][j+1:]
+				}
+				return f[0]
+			}
+		}
+	}
+	return "?"
+}
+
+// panicSite extracts the innermost galaxy function of a panic stack.
+func panicSite(msg string) string {
+	for _, l := range strings.Split(msg, "\n") {
+		l = strings.TrimSpace(l)
+		if strings.HasPrefix(l, "tkestack.io/galaxy/pkg/") || strings.HasPrefix(l, "tkestack.io/galaxy/cni/") {
+			if i := strings.LastIndex(l, "("); i > 0 {
+				l = l[:i]
+			}
+			return strings.TrimPrefix(l, "tkestack.io/galaxy/")
+		}
+	}
+	return "unknown"
 }
 
 func firstLines(s string, n int) string {
